@@ -167,6 +167,11 @@ class World:
                 # two -C options (the second relative to the first); for commands without path arguments the second one goes on into the sub-directory
                 pre = ["-C", self.root, "-C", os.path.relpath(self.repo, self.root)] + (["-C", getattr(self, "subdir", ".")] if pathless and os.path.isdir(sd) else [])
                 run_cwd = "/"
+            elif inv == "gitdir-worktree":
+                # the form IDE integrations use: absolute --git-dir / --work-tree, started from a sub-directory where that is possible
+                pre = ["--git-dir", os.path.join(self.repo, ".git"), "--work-tree", self.repo]
+                if pathless and os.path.isdir(sd):
+                    run_cwd = sd
             elif inv in ("subdir", "subdir-c") and pathless:
                 if os.path.isdir(sd):
                     run_cwd = sd
